@@ -271,18 +271,22 @@ package chain
 //@   requires c != nil && b != nil && sharder != nil && b.Round >= 0 && rheld(c.mbMutex) == 0 && held(c.mbMutex) == 0
 //@   ensures[replication-disabled-everybody-stores] old(cfg_num_replicators(c.ChainConfig)) <= 0 ==> result
 //@   at-call ScoreHashString assert[scores-the-blocks-hash] $arg2 == b.Hash
+//@   at-call ScoreHashString assert[against-the-sharders-in-force-for-the-round] $arg1 == mbAt(c, b.Round).Sharders
 //@   at-call IsInTop assert[asks-for-the-configured-number] $arg0 == sharder && $arg2 == cfg_num_replicators(c.ChainConfig) && $arg2 >= 1
 //@ func (*Chain).IsBlockSharderFromHash
 //@   prop C42
 //@   requires c != nil && sharder != nil && nRound >= 0 && rheld(c.mbMutex) == 0 && held(c.mbMutex) == 0
 //@   ensures[replication-disabled-everybody-stores] old(cfg_num_replicators(c.ChainConfig)) <= 0 ==> result
 //@   at-call ScoreHashString assert[scores-the-given-hash] $arg2 == bHash
+//@   at-call ScoreHashString assert[against-the-sharders-in-force-for-the-round] $arg1 == mbAt(c, nRound).Sharders
 //@   at-call IsInTop assert[asks-for-the-configured-number] $arg0 == sharder && $arg2 == cfg_num_replicators(c.ChainConfig) && $arg2 >= 1
 //@ func (*Chain).CanShardBlockWithReplicators
 //@   prop C42
 //@   requires c != nil && sharder != nil && nRound >= 0 && rheld(c.mbMutex) == 0 && held(c.mbMutex) == 0
 //@   ensures[replication-disabled-everybody-stores] old(cfg_num_replicators(c.ChainConfig)) <= 0 ==> result0
 //@   at-call ScoreHashString assert[scores-the-given-hash] $arg2 == hash
+//@   at-call ScoreHashString assert[against-the-sharders-in-force-for-the-round] $arg1 == mbAt(c, nRound).Sharders
+//@   at-call CopyNodes assert[all-sharders-in-force-for-the-round] $arg0 == mbAt(c, nRound).Sharders
 //@   at-call IsInTopWithNodes assert[asks-for-the-configured-number] $arg0 == sharder && $arg2 == cfg_num_replicators(c.ChainConfig) && $arg2 >= 1
 
 // ---------------------------------------------------------------- notarization (C31)
